@@ -100,7 +100,15 @@ def spellings_of(canon, names):
         cands = {n, n.upper(), n.lower(), n.capitalize(),
                  n.replace('_', '-'), n.replace('-', '_'),
                  n.replace('_', ''), n.replace('-', ''),
-                 n.replace('_', '-').upper(), n.replace('-', '_').upper()}
+                 n.replace('_', '-').upper(), n.replace('-', '_').upper(),
+                 # the codec registry collapses every run of non-alphanumeric
+                 # characters: doubled / leading / trailing separators and
+                 # "." or "/" as separator name the same codec
+                 n.replace('_', '-').replace('-', '--'),
+                 n.replace('_', '-') + '-', '_' + n.replace('-', '_'),
+                 n.replace('_', '-').replace('-', '/'),
+                 n.replace('_', '-').replace('-', '.'),
+                 n.replace('_', '-').replace('-', '_-')}
 
         for c in cands:
             if not c or not VAL_RE.match(c) or c.isdigit():
